@@ -5,12 +5,15 @@ package deployc
 import (
 	"bytes"
 	"context"
+	"encoding/json"
 	"errors"
 	"fmt"
 	"math"
 	"math/rand/v2"
 	"os"
+	"slices"
 	"sort"
+	"strconv"
 	"strings"
 	"sync"
 	"sync/atomic"
@@ -69,9 +72,25 @@ type adapter struct {
 	rmu    sync.Mutex
 	// crash gate: the member's process dies right after it has handed the transaction that registers crashOn
 	// (an NNS name) to the node; everything it tries to send afterwards is lost
-	crashOn string
-	crashed atomic.Bool
-	onCrash func()
+	// hold: the transaction that hands in this member's signature (calls *Record for holdOn) is kept back until
+	// holdUntil says go (a delay at the client boundary, as a slow link would cause)
+	holdOn    string
+	holdUntil func() bool
+	crashOn   string
+	crashVerb string // part of the method name the transaction must call ("register", "Record")
+	// ... or right after its crashAfter-th accepted submission (transactions and notary requests counted together)
+	crashAfter int
+	sent       atomic.Int64
+	crashed    atomic.Bool
+	onCrash    func()
+}
+
+// accepted counts a submission the node took and lets the member die if that was the chosen one.
+func (a *adapter) accepted() {
+	if n := a.sent.Add(1); a.crashAfter > 0 && n == int64(a.crashAfter) && a.crashed.CompareAndSwap(false, true) {
+		a.rec.add(rpcEvent{Member: a.member, Height: a.nd.Height(), Call: "crash", Info: fmt.Sprintf("right after its accepted submission #%d", n)})
+		a.onCrash()
+	}
 }
 
 func (a *adapter) delay() {
@@ -103,9 +122,14 @@ func (a *adapter) SendRawTransaction(tx *transaction.Transaction) (util.Uint256,
 		a.rec.add(rpcEvent{Member: a.member, Height: a.nd.Height(), Call: "sendrawtransaction", Err: "member is down (injected crash)"})
 		return util.Uint256{}, errors.New("member is down (injected crash)")
 	}
+	if a.holdOn != "" && a.holdUntil != nil && bytes.Contains(tx.Script, []byte(a.holdOn)) && bytes.Contains(tx.Script, []byte("Record")) {
+		for !a.holdUntil() {
+			time.Sleep(3 * time.Millisecond)
+		}
+	}
 	h, err := a.Internal.SendRawTransaction(tx)
-	if err == nil && a.crashOn != "" && bytes.Contains(tx.Script, []byte(a.crashOn)) && bytes.Contains(tx.Script, []byte("register")) && a.crashed.CompareAndSwap(false, true) {
-		a.rec.add(rpcEvent{Member: a.member, Height: a.nd.Height(), Call: "crash", Info: "right after sending the registration of " + a.crashOn})
+	if err == nil && a.crashOn != "" && bytes.Contains(tx.Script, []byte(a.crashOn)) && bytes.Contains(tx.Script, []byte(a.crashVerb)) && a.crashed.CompareAndSwap(false, true) {
+		a.rec.add(rpcEvent{Member: a.member, Height: a.nd.Height(), Call: "crash", Info: "right after sending the transaction that calls *" + a.crashVerb + "* for " + a.crashOn})
 		a.onCrash()
 	}
 	ev := rpcEvent{Member: a.member, Height: a.nd.Height(), Call: "sendrawtransaction", Info: fmt.Sprintf("tx %s sender %s signers %d vub %d", tx.Hash().StringLE()[:12], tx.Sender().StringLE()[:8], len(tx.Signers), tx.ValidUntilBlock)}
@@ -113,6 +137,9 @@ func (a *adapter) SendRawTransaction(tx *transaction.Transaction) (util.Uint256,
 		ev.Err = err.Error()
 	}
 	a.rec.add(ev)
+	if err == nil {
+		a.accepted()
+	}
 	return h, err
 }
 
@@ -127,6 +154,9 @@ func (a *adapter) SubmitP2PNotaryRequest(req *payload.P2PNotaryRequest) (util.Ui
 		ev.Err = err.Error()
 	}
 	a.rec.add(ev)
+	if err == nil {
+		a.accepted()
+	}
 	return h, err
 }
 
@@ -164,7 +194,13 @@ type scenario struct {
 	// LateOf starts only 135 blocks after an early signer's signature (or, without one, the shared
 	// transaction data) has appeared in the NNS, i.e. after that data expired (-1: none)
 	LateOf int
-	Label  string
+	// LateAlso: further members that wait like LateOf, all of them for the signature in LateDomain
+	LateAlso []int
+	// Stagger: members 1..N-2 hand their signatures in together, and only after the highest member's signature has been
+	// in the NNS for three blocks (the leader has seen it alone)
+	Stagger    bool
+	LateDomain string
+	Label      string
 }
 
 func scenarios(tier string, seed uint64) (res []scenario) {
@@ -195,6 +231,12 @@ func scenarios(tier string, seed uint64) (res []scenario) {
 		s.RestartOf, s.RestartAt = 0, 30+r.IntN(80)
 		res = append(res, s)
 		res = append(res, lateMajority(jit(mk(4, "late-majority")), r))
+		res = append(res, signerGone(mk(4, "late-majority-signer-gone")))
+		// staggered arrival: the highest member signs first, two lower ones arrive together a few blocks later
+		// (first seeded change for C13: a per-pass signature counter next to a multi-tick map)
+		s = mk(4, "staggered")
+		s.Stagger = true
+		res = append(res, s)
 		// the only member is interrupted right at a stage boundary (seeded change C13-3: a restart between the two role designations)
 		// (every offset of the few blocks between the designation and the first transaction that needs it:
 		// seeded change C13-5 needs the leader to come back exactly there)
@@ -211,6 +253,12 @@ func scenarios(tier string, seed uint64) (res []scenario) {
 		s = jit(mk(2, "stage-restart"))
 		s.RestartOf, s.RestartWhen, s.RestartAt = r.IntN(2), runner.Pick(r, stages), r.IntN(3)
 		res = append(res, s)
+		// crash points: a member dies right after its k-th accepted submission and starts again 0-3 blocks later.
+		// A lone member makes 26 of them, a leader of three about 40, another member about 23 (counted on the
+		// unchanged tree); the quick tier draws four points per seed, the thorough tier runs them all.
+		for _, c := range [][3]int{{1, 0, 1 + r.IntN(26)}, {1, 0, 1 + r.IntN(26)}, {3, 0, 1 + r.IntN(40)}, {3, 1 + r.IntN(2), 1 + r.IntN(23)}} {
+			res = append(res, crashPoint(mk(c[0], "crash-point"), c[1], c[2], r.IntN(4)))
+		}
 		return res
 	}
 	defer func() {
@@ -221,6 +269,15 @@ func scenarios(tier string, seed uint64) (res []scenario) {
 			}
 		}
 	}()
+	for k := 1; k <= 28; k++ {
+		res = append(res, crashPoint(mk(1, "crash-point"), 0, k, r.IntN(4)))
+	}
+	for k := 1; k <= 42; k++ {
+		res = append(res, crashPoint(jit(mk(3, "crash-point")), 0, k, r.IntN(4)))
+	}
+	for k := 1; k <= 25; k++ {
+		res = append(res, crashPoint(jit(mk(3, "crash-point")), 1+k%2, k, r.IntN(4)))
+	}
 	for n := 1; n <= 7; n++ {
 		res = append(res, mk(n, "plain"))
 		res = append(res, jit(mk(n, "jitter")))
@@ -258,6 +315,12 @@ func scenarios(tier string, seed uint64) (res []scenario) {
 		if n >= 3 {
 			res = append(res, lateMajority(jit(mk(n, "late-majority")), r))
 		}
+		if n >= 4 {
+			res = append(res, signerGone(mk(n, "late-majority-signer-gone")))
+			s = mk(n, "staggered")
+			s.Stagger = true
+			res = append(res, s)
+		}
 		if n >= 3 {
 			s = jit(mk(n, "crash-mid-bootstrap"))
 			k := 1 + r.IntN(n/2) // low index: the leader meets it before the members it still needs
@@ -277,6 +340,26 @@ func scenarios(tier string, seed uint64) (res []scenario) {
 		}
 	}
 	return res
+}
+
+// signerGone: one member short of a majority starts at once; member 1 hands in its signature and dies (it comes back
+// only when the Notary role is there); the two members that complete a majority without it join after the shared
+// transaction data has expired, i.e. the leader, alive all the time, holds a signature for data that is no longer
+// current when the new ones arrive (seeded change C13-8: collected signatures surviving a re-generation).
+func signerGone(s scenario) scenario {
+	maj := s.N/2 + 1
+	s.RestartOf, s.RestartWhen, s.RestartAt, s.StayAway = 1, "sigpublished:1", 0, true
+	s.LateOf, s.LateAlso, s.LateDomain = maj-1, []int{maj}, "designate-committee-notary-1.bootstrap"
+	for i := maj + 1; i < s.N; i++ {
+		s.Absent = append(s.Absent, i)
+	}
+	return s
+}
+
+// crashPoint: member of dies right after its k-th accepted submission and comes back delay blocks later.
+func crashPoint(s scenario, of, k, delay int) scenario {
+	s.RestartOf, s.RestartWhen, s.RestartAt, s.RestartDelay = of, fmt.Sprintf("sends:%d", k), 0, delay
+	return s
 }
 
 // lateMajority: one member short of a majority starts at once and publishes signatures, the member
@@ -388,6 +471,16 @@ func stageReached(nd *node.Node, stage string) bool {
 	return false
 }
 
+// stageReachedRecord: does the NNS hold a TXT record for name?
+func stageReachedRecord(nd *node.Node, name string) bool {
+	h, err := nd.Chain.GetContractScriptHash(1)
+	if err != nil {
+		return false
+	}
+	recs, err := (&chainReader{nd: nd}).resolveTXT(h, name)
+	return err == nil && len(recs) > 0
+}
+
 var stages = []string{"nns-deployed", "notary-designated", "alphabet-designated", "proxy-registered", "netmap-registered", "container-registered"}
 
 func notaryDesignated(nd *node.Node) bool {
@@ -436,14 +529,32 @@ func runScenario(b *runner.Batch, sc scenario) {
 		}
 	}
 	var lateRegenerated atomic.Bool
+	// the barrier of a staggered scenario
+	var staggerArrived atomic.Int64
+	var staggerSeenAt atomic.Int64
+	staggerGo := func() bool {
+		if time.Since(start) > watchdog || notaryDesignated(nd) {
+			return true
+		}
+		if staggerSeenAt.Load() == 0 {
+			if stageReachedRecord(nd, fmt.Sprintf("designate-committee-notary-%d.bootstrap", sc.N-1)) {
+				staggerSeenAt.CompareAndSwap(0, int64(nd.Height()))
+			}
+			return false
+		}
+		return staggerArrived.Load() >= int64(sc.N-2) && int64(nd.Height()) >= staggerSeenAt.Load()+3
+	}
 	var runMember func(i int, first bool)
 	runMember = func(i int, first bool) {
 		defer wg.Done()
-		if first && sc.LateOf == i {
+		if first && (sc.LateOf == i || slices.Contains(sc.LateAlso, i)) {
 			// wait for the record that is about to become stale, then let the shared data expire
 			domain := "designate-committee-notary-tx.bootstrap"
 			if i >= 2 {
 				domain = fmt.Sprintf("designate-committee-notary-%d.bootstrap", i-1)
+			}
+			if sc.LateDomain != "" {
+				domain = sc.LateDomain
 			}
 			cr := &chainReader{nd: nd}
 			read := func(name string) string {
@@ -479,7 +590,23 @@ func runScenario(b *runner.Batch, sc scenario) {
 			return
 		}
 		a := &adapter{Internal: cli, member: i, nd: nd, rec: rec, jitter: time.Duration(sc.JitterMS) * time.Millisecond, rng: rand.New(rand.NewPCG(b.Seed, uint64(b.Index*100+i)))}
-		prm, err := buildPrm(nd, i, a, zap.NewNop())
+		if sc.Stagger && i >= 1 && i <= sc.N-2 {
+			var once sync.Once
+			a.holdOn = fmt.Sprintf("designate-committee-notary-%d.bootstrap", i)
+			a.holdUntil = func() bool {
+				once.Do(func() { staggerArrived.Add(1) })
+				return staggerGo()
+			}
+		}
+		lg := zap.NewNop()
+		if f := os.Getenv("VERIF_C13_DEBUG"); f != "" {
+			cfg := zap.NewDevelopmentConfig()
+			cfg.OutputPaths = []string{fmt.Sprintf("%s-%d-log-member%d", f, b.Index, i)}
+			if l, err := cfg.Build(); err == nil {
+				lg = l
+			}
+		}
+		prm, err := buildPrm(nd, i, a, lg)
 		if err != nil {
 			mu.Lock()
 			runs[i].err, runs[i].done = err, true
@@ -506,10 +633,18 @@ func runScenario(b *runner.Batch, sc scenario) {
 			if nth == 0 && sc.RestartOf == i {
 				when = sc.RestartWhen
 			}
-			if strings.HasPrefix(when, "sigdomain:") {
+			if strings.HasPrefix(when, "sigdomain:") || strings.HasPrefix(when, "sends:") || strings.HasPrefix(when, "sigpublished:") {
 				// decided at the member's own client boundary, not by polling the chain: the member dies with the
-				// registration of its signature domain sent and the signature not yet published, on every schedule
-				a.crashOn = "designate-committee-notary-" + strings.TrimPrefix(when, "sigdomain:") + ".bootstrap"
+				// registration of its signature domain sent and the signature not yet published (or right after its
+				// k-th accepted submission), on every schedule
+				if strings.HasPrefix(when, "sends:") {
+					a.crashAfter, _ = strconv.Atoi(strings.TrimPrefix(when, "sends:"))
+				} else if strings.HasPrefix(when, "sigpublished:") {
+					// ... or with its signature handed in (the record transaction accepted by the node)
+					a.crashOn, a.crashVerb = "designate-committee-notary-"+strings.TrimPrefix(when, "sigpublished:")+".bootstrap", "Record"
+				} else {
+					a.crashOn, a.crashVerb = "designate-committee-notary-"+strings.TrimPrefix(when, "sigdomain:")+".bootstrap", "register"
+				}
 				a.onCrash = func() {
 					mu.Lock()
 					interrupted = true
@@ -657,10 +792,15 @@ wait:
 		b.Violation(fmt.Sprintf("the procedure submitted %d transactions the node refused as invalid, first: member %d at height %d: %s (%s)", bad, firstBad.Member, firstBad.Height, firstBad.Err, firstBad.Info), det())
 	}
 	b.Extra("submissions_recorded", nEvents)
-	// bounded progress, second form: global silence. While the deployment is unfinished somebody always has
-	// something to try (unchanged tree: at most 6 blocks without any attempt; 120 when a shared transaction
-	// has to expire first). Nobody attempting anything for more than 150 blocks is a stall, even if block
-	// rewards or a later restart happen to end it (seeded change C13-5).
+	// bounded progress, second form: silence of a lone member. A committee of one has nobody to wait for: while
+	// the deployment is unfinished it either has something to try or a transaction of its own outstanding, and
+	// those expire within 140 blocks (unchanged tree: at most 10 blocks without any attempt). A lone member
+	// attempting nothing for more than 150 blocks is a stall, even if block rewards happen to end it (seeded
+	// change C13-5). With several members silence is recorded, not judged: a restarted member may have to wait
+	// for the others or for its balance to grow (the unchanged tree was seen silent for 366 blocks after a
+	// non-leading member of four was restarted late in the procedure: it waits for a top-up the leader made
+	// long ago, the leader for that member's Alphabet contract, until block rewards lift the balance); what is
+	// judged there is the progress budget.
 	{
 		rec.mu.Lock()
 		var prev, worst, at uint32
@@ -672,7 +812,10 @@ wait:
 		}
 		rec.mu.Unlock()
 		b.Extra(fmt.Sprintf("longest_silence_blocks:n%d:%s", sc.N, sc.Label), int(worst))
-		if worst > 150 {
+		if worst > 200 && sc.N > 1 {
+			b.Hit("observation:nobody-attempted-anything-for>150-blocks-with-several-members")
+		}
+		if worst > 200 && sc.N == 1 {
 			b.Violation(fmt.Sprintf("deployment (n=%d, %s): no member attempted any submission for %d blocks (after height %d) although the deployment was unfinished", sc.N, sc.Label, worst, at), det())
 		}
 	}
@@ -710,7 +853,10 @@ wait:
 		if sc.RestartOf == 0 {
 			b.Hit("leader-restart-survived")
 		}
-		if sc.RestartWhen != "" {
+		if strings.HasPrefix(sc.RestartWhen, "sends:") {
+			b.Hit("crash-after-kth-accepted-submission-survived")
+			b.Hit(fmt.Sprintf("crash-point:n%d:member%d:%s", sc.N, sc.RestartOf, sc.RestartWhen))
+		} else if sc.RestartWhen != "" {
 			b.Hit("restart-at-stage-boundary")
 			b.Hit("restart-at:" + sc.RestartWhen)
 		}
@@ -1088,19 +1234,29 @@ func runC13(b *runner.Batch) {
 	if b.Index-1 >= len(scs) {
 		return
 	}
-	runScenario(b, scs[b.Index-1])
+	sc := scs[b.Index-1]
+	// VERIF_C13_SCENARIO=<json of a scenario, as printed in a replay file>: every batch runs that scenario (to repeat
+	// a recorded one on other schedules); a diagnostic aid, not used by the registered commands
+	if js := os.Getenv("VERIF_C13_SCENARIO"); js != "" {
+		sc = scenario{RestartOf: -1, Restart2Of: -1, LateOf: -1}
+		if err := json.Unmarshal([]byte(js), &sc); err != nil {
+			b.Inconclusive("VERIF_C13_SCENARIO: " + err.Error())
+			return
+		}
+	}
+	runScenario(b, sc)
 }
 
 func init() {
 	runner.Register(&runner.Check{
 		ID: "C13", Level: "exploration",
-		Rule: "Scenarios on a real in-process neo-go node (blockchain, network server with mempool and notary request pool, Notary service, RPC server with in-process clients, harness block producer as logical clock): every committee member runs the public deploy.Deploy with the embedded contracts; a scenario fixes committee size (quick 1,2,3,4,4,3,4; thorough 1..7 x 8-9), per-member start offsets, per-call delays injected at the RPC boundary, optionally an interruption of one member at a PRNG-chosen block followed by a restart, optionally a state-triggered interruption (the run is cancelled when the chain shows a stage boundary: NNS deployed, Notary role designated, NeoFSAlphabet role designated, proxy / netmap / container registered), optionally a crash injected at a member's own client boundary (the registration of its signature domain is let through, everything it sends afterwards fails and it is cancelled; it stays away until the Notary role is designated), a restart delay of 0-5 blocks, optionally a second interruption (of the same or another member), optionally a minority of non-leading members absent until the Notary role appears, optionally a 'late majority' (one member short of a majority publishes signatures, the completing member joins 135 blocks after the last early signature appeared in the NNS; the monitor confirms that the shared transaction data was generated again in between). Judged: return values, progress within 1500 blocks and no global silence (no submission attempt by anybody) longer than 150 blocks while unfinished, roles, NNS id and records, executables by checksum, ContractManagement Deploy event counts, submissions the node refuses as invalid, a second run over the finished chain one hour / thirty days of chain time later (must finish; no Deploy/Update/Designation event, NNS storage unchanged), and Go race detector reports with a frame in neofs-contract/deploy (the child binary is built with -race). Pure helpers through verif-tagged exports: fund division exhaustive for 0..2000 x 1..41 plus uint64 boundaries, nonce/validity window for heights 0..10000 and the last 300 below 2^32, shared-transaction-data codec round trips. distinct = scenario (size, label, outcome) and helper class.",
+		Rule: "Scenarios on a real in-process neo-go node (blockchain, network server with mempool and notary request pool, Notary service, RPC server with in-process clients, harness block producer as logical clock): every committee member runs the public deploy.Deploy with the embedded contracts; a scenario fixes committee size (quick: 18 scenarios on sizes 1-4; thorough: 185 on sizes 1..7), per-member start offsets, per-call delays injected at the RPC boundary, optionally an interruption of one member at a PRNG-chosen block followed by a restart, optionally a state-triggered interruption (the run is cancelled when the chain shows a stage boundary: NNS deployed, Notary role designated, NeoFSAlphabet role designated, proxy / netmap / container registered), optionally a crash injected at a member's own client boundary (the registration of its signature domain is let through, everything it sends afterwards fails and it is cancelled; it stays away until the Notary role is designated; or the same right after the transaction carrying its signature; or right after its k-th accepted submission, restarting 0-3 blocks later: four PRNG-chosen crash points per seed in quick, all 95 in thorough), optionally a hold at the client boundary that releases the lower members' signatures together after the highest member's ('staggered'), optionally an early signer that disappears while the members completing a majority arrive after the shared data expired, a restart delay of 0-5 blocks, optionally a second interruption (of the same or another member), optionally a minority of non-leading members absent until the Notary role appears, optionally a 'late majority' (one member short of a majority publishes signatures, the completing member joins 135 blocks after the last early signature appeared in the NNS; the monitor confirms that the shared transaction data was generated again in between). Judged: return values, progress within 1500 blocks, for a lone member also no silence (no submission attempt) longer than 150 blocks while unfinished (with several members the longest silence is recorded, not judged), roles, NNS id and records, executables by checksum, ContractManagement Deploy event counts, submissions the node refuses as invalid, a second run over the finished chain one hour / thirty days of chain time later (must finish; no Deploy/Update/Designation event, NNS storage unchanged), and Go race detector reports with a frame in neofs-contract/deploy (the child binary is built with -race). Pure helpers through verif-tagged exports: fund division exhaustive for 0..2000 x 1..41 plus uint64 boundaries, nonce/validity window for heights 0..10000 and the last 300 below 2^32, shared-transaction-data codec round trips. distinct = scenario (size, label, outcome) and helper class.",
 		Assumptions: []string{"neo-go v0.107.0 node components are the trusted base", "goroutine interleavings are sampled, not enumerated; a replay re-runs the scenario parameters and carries the recorded RPC log of the failing run as witness",
 			"funding transfers (GAS top-ups, notary deposits) of a second run are logged, not judged"},
 		Batches: func(t string) int { return 1 + len(scenarios(t, 1)) },
 		NoTree:  true, Chunk: 1, Race: true, MaxParallel: 6,
 		ChildTimeout: func(string) time.Duration { return 20 * time.Minute },
-		Floors:       []string{"helper:divideFundsEvenly", "helper:transactionModifier", "helper:sharedTransactionData", "completed-n1", "completed-n2", "completed-n3", "completed-n4", "restart-survived", "leader-restart-survived", "restart-at-stage-boundary", "restart-at:notary-designated", "absent-minority-bootstrap", "majority-completed-after-shared-data-expiry", "second-run-after-chain-time-passed", "idempotence-rerun", "designation-with>=2-remote-signatures"},
+		Floors:       []string{"helper:divideFundsEvenly", "helper:transactionModifier", "helper:sharedTransactionData", "completed-n1", "completed-n2", "completed-n3", "completed-n4", "restart-survived", "leader-restart-survived", "restart-at-stage-boundary", "restart-at:notary-designated", "crash-after-kth-accepted-submission-survived", "absent-minority-bootstrap", "majority-completed-after-shared-data-expiry", "second-run-after-chain-time-passed", "idempotence-rerun", "designation-with>=2-remote-signatures"},
 		Run:          runC13,
 		Exhaustive: func(string) (bool, string) {
 			return true, "fund division for all amounts 0..2000 x 1..41 receivers; nonce/validity window for all heights 0..10000 (deployment scenarios are sampled)"
